@@ -1,4 +1,5 @@
 import Splipy.Lemmas.C04PerSeq
+import Splipy.Lemmas.C07PerWindow
 import Splipy.Lemmas.C07Periodic
 import Splipy.Lemmas.C07Roll
 import Splipy.Model.Split
@@ -6,7 +7,8 @@ import Splipy.Model.Split
 /-!
 # `Obj.split` at a single value of a periodic direction (model level)
 
-The insertion loop is a sequence of periodic insertions (`C04.PerRefines`, guard `n ≥ p+k`);
+The insertion loop is a sequence of periodic insertions (`C04.PerRefines`, every valid periodic basis:
+`C04.insertKnots_fibres_periodic_all`);
 `roll` / `rollAxisNeg` shift the periodic sequences (`C07Roll`); the opened object is one full
 period of the periodic map starting at the split value (`splineVal_open_periodic`).
 -/
@@ -27,21 +29,12 @@ theorem Basis.continuity_periodic_ok (b : Basis K) (hper : 0 ≤ b.periodic) (to
   simp only [ge_iff_le, hper, if_true]
   split_ifs <;> exact ⟨_, rfl⟩
 
-theorem wrapVal_of_mem (b : Basis K) (x : K) (h1 : b.start ≤ x) (h2 : x ≤ b.stop) :
-    wrapVal b x = x := by
-  unfold wrapVal
-  rw [if_neg]
-  rintro (h | h)
-  · exact absurd h1 (not_le.2 h)
-  · exact absurd h2 (not_le.2 h)
-
-/-- The insertion loop of `split` for one value of a periodic direction. -/
-theorem splitInsert_single_periodic (o : Obj K) (dir : ℕ) (hdir : dir < o.bases.size)
+/-- The insertion loop of `split` for one value of a periodic direction (every valid periodic basis,
+any real value). -/
+theorem splitInsert_single_periodic_all (o : Obj K) (dir : ℕ) (hdir : dir < o.bases.size)
     (hax : dir < o.cps.shape.length) (hv : (o.basis dir).Valid) (k : ℕ)
     (hk : (o.basis dir).periodic = (k : Int))
-    (hguard : (o.basis dir).order + k ≤ (o.basis dir).numFunctions)
-    (hshape : o.cps.shape.getD dir 0 = (o.basis dir).numFunctions) (tol x0 : K)
-    (hx : (o.basis dir).start ≤ x0 ∧ x0 < (o.basis dir).stop) :
+    (hshape : o.cps.shape.getD dir 0 = (o.basis dir).numFunctions) (tol x0 : K) :
     ∃ so C m, o.splitInsert tol [x0] dir = .ok so ∧
       PerRefines (o.basis dir) (so.basis dir) C m ∧
       (∀ d, d ≠ dir → so.basis d = o.basis d) ∧ so.rational = o.rational ∧
@@ -54,12 +47,8 @@ theorem splitInsert_single_periodic (o : Obj K) (dir : ℕ) (hdir : dir < o.base
   obtain ⟨cnt, hcnt⟩ : ∃ cnt : ℕ, cnt = ((match c with
       | none => ((o.basis dir).order : Int) - 1
       | some c => c) + 1).toNat := ⟨_, rfl⟩
-  obtain ⟨o', C, h1, h2, h3, h4, h5, h6, h7, h8, h9⟩ :=
-    insertKnots_fibres_periodic o dir hdir hax hv k hk hguard hshape (List.replicate cnt x0)
-      (by
-        intro x hxm
-        rw [List.eq_of_mem_replicate hxm, wrapVal_of_mem _ x0 hx.1 (le_of_lt hx.2)]
-        exact ne_of_lt hx.2)
+  obtain ⟨o', C, h1, h2, _, h3, h4, h5, h6, h7, h8, h9⟩ :=
+    insertKnots_fibres_periodic_all o dir hdir hax hv k hk hshape (List.replicate cnt x0)
   rw [List.length_replicate] at h2 h5 h8
   refine ⟨o', C, cnt, ?_, h2, h3, h4, h5, h6, h7, h8, h9⟩
   unfold Obj.splitInsert
@@ -67,6 +56,23 @@ theorem splitInsert_single_periodic (o : Obj K) (dir : ℕ) (hdir : dir < o.base
   rw [show (Except.ok c : PyM (Option Int)) = pure c from rfl, pure_bind]
   subst hcnt
   cases c <;> exact h1
+
+/-- Older guarded form (the hypotheses `hguard`, `hx` are not used). -/
+theorem splitInsert_single_periodic (o : Obj K) (dir : ℕ) (hdir : dir < o.bases.size)
+    (hax : dir < o.cps.shape.length) (hv : (o.basis dir).Valid) (k : ℕ)
+    (hk : (o.basis dir).periodic = (k : Int))
+    (_hguard : (o.basis dir).order + k ≤ (o.basis dir).numFunctions)
+    (hshape : o.cps.shape.getD dir 0 = (o.basis dir).numFunctions) (tol x0 : K)
+    (_hx : (o.basis dir).start ≤ x0 ∧ x0 < (o.basis dir).stop) :
+    ∃ so C m, o.splitInsert tol [x0] dir = .ok so ∧
+      PerRefines (o.basis dir) (so.basis dir) C m ∧
+      (∀ d, d ≠ dir → so.basis d = o.basis d) ∧ so.rational = o.rational ∧
+      so.cps.shape = o.cps.shape.set dir ((o.basis dir).numFunctions + m) ∧
+      outerN so dir = outerN o dir ∧ innerN so dir = innerN o dir ∧
+      (∀ a i r, a < outerN o dir → i < innerN o dir → r < (o.basis dir).numFunctions + m →
+        fibre so dir a i r = mulVec C (o.basis dir).numFunctions (fibre o dir a i) r) ∧
+      so.bases = o.bases.set! dir (so.basis dir) :=
+  splitInsert_single_periodic_all o dir hdir hax hv k hk hshape tol x0
 
 /-- The object `split` returns for a single value of a periodic direction, in terms of the clone
 `so` after the insertion loop. -/
@@ -119,11 +125,10 @@ theorem Basis.opened_spec {b : Basis K} (hv : b.Valid) (hper : 0 ≤ b.periodic)
 theorem size_set! {α : Type} (a : Array α) (i : ℕ) (x : α) : (a.set! i x).size = a.size := by
   simp [Array.set!]
 
-/-- **`split` at one value of a periodic direction** (model level, guard `n ≥ p+k`). -/
-theorem split_periodic_single (o : Obj K) (dir : ℕ) (hdir : dir < o.bases.size)
+/-- **`split` at one value of a periodic direction** (model level; every valid periodic basis). -/
+theorem split_periodic_single_all (o : Obj K) (dir : ℕ) (hdir : dir < o.bases.size)
     (hax : dir < o.cps.shape.length) (hv : (o.basis dir).Valid) (k : ℕ)
     (hk : (o.basis dir).periodic = (k : Int))
-    (hguard : (o.basis dir).order + k ≤ (o.basis dir).numFunctions)
     (hshape : o.cps.shape.getD dir 0 = (o.basis dir).numFunctions) (tol x0 : K)
     (hx : (o.basis dir).start ≤ x0 ∧ x0 < (o.basis dir).stop)
     (hMult : ∀ so, o.splitInsert tol [x0] dir = .ok so →
@@ -150,7 +155,7 @@ theorem split_periodic_single (o : Obj K) (dir : ℕ) (hdir : dir < o.bases.size
                 (o.basis dir).numFunctions (fibre o dir a i) 0
                 (t - ((o.basis dir).stop - (o.basis dir).start))) := by
   obtain ⟨so, C, m, hso, hR, hother, hrat, hshp, hout, hinn, hfib, hbases⟩ :=
-    splitInsert_single_periodic o dir hdir hax hv k hk hguard hshape tol x0 hx
+    splitInsert_single_periodic_all o dir hdir hax hv k hk hshape tol x0
   obtain ⟨hM1, hM2⟩ := hMult so hso
   set b := o.basis dir with hb
   set b' := so.basis dir with hb'
@@ -178,6 +183,13 @@ theorem split_periodic_single (o : Obj K) (dir : ℕ) (hdir : dir < o.bases.size
     rw [h2, hM2] at h1
     exact absurd hx.2 (not_lt.2 h1)
   have hmu_le : mu ≤ b'.numFunctions := by omega
+  -- the `p`-fold split value fits into one period: the opened basis has at least `p` functions
+  have hpn : b.order ≤ b'.numFunctions := by
+    by_contra hc
+    have := kn_run_le_period hv' k (hR.periodic_eq.trans hk) mu (mu + b.order - 1) (by omega)
+      (by unfold Basis.nAll at hmu_lt; omega)
+    rw [hM1, hM2] at this
+    exact absurd this (lt_irrefl _)
   obtain ⟨b1, hroll, _⟩ := Basis.roll_spec hv' hper' mu hmu_le
   have hsplit := split_single_unfold o so tol x0 dir b1 hso (by rw [← hb', hR.periodic_eq, hk]; omega)
     (by rw [← hb', ← hmudef, hktn]; omega) hroll
@@ -311,5 +323,37 @@ theorem split_periodic_single (o : Obj K) (dir : ℕ) (hdir : dir < o.bases.size
       · rw [← Side.after_add, show b.start + (b.stop - b.start) = b.stop by ring]; exact haf
       · rw [← Side.before_add]
         exact Side.before_of_le s (by linarith [hx.2]) ht2.2
+
+/-- Older guarded form (the hypothesis `hguard` is not used). -/
+theorem split_periodic_single (o : Obj K) (dir : ℕ) (hdir : dir < o.bases.size)
+    (hax : dir < o.cps.shape.length) (hv : (o.basis dir).Valid) (k : ℕ)
+    (hk : (o.basis dir).periodic = (k : Int))
+    (_hguard : (o.basis dir).order + k ≤ (o.basis dir).numFunctions)
+    (hshape : o.cps.shape.getD dir 0 = (o.basis dir).numFunctions) (tol x0 : K)
+    (hx : (o.basis dir).start ≤ x0 ∧ x0 < (o.basis dir).stop)
+    (hMult : ∀ so, o.splitInsert tol [x0] dir = .ok so →
+      (so.basis dir).kn ((so.basis dir).bisectL x0) = x0 ∧
+      (so.basis dir).kn ((so.basis dir).bisectL x0 + (o.basis dir).order - 1) = x0) :
+    ∃ op m, o.split tol [x0] dir = .ok (.single op) ∧
+      (op.basis dir).Valid ∧ (op.basis dir).periodic = -1 ∧ (op.basis dir).order = (o.basis dir).order ∧
+      (op.basis dir).numFunctions = (o.basis dir).numFunctions + m ∧
+      (op.basis dir).start = x0 ∧
+      (op.basis dir).stop = x0 + ((o.basis dir).stop - (o.basis dir).start) ∧
+      (∀ d, d ≠ dir → op.basis d = o.basis d) ∧ op.rational = o.rational ∧
+      op.cps.shape = o.cps.shape.set dir ((o.basis dir).numFunctions + m) ∧
+      ∀ a i, a < outerN o dir → i < innerN o dir → ∀ (s : Side) (t : K),
+        s.mem x0 (x0 + ((o.basis dir).stop - (o.basis dir).start)) t →
+        (s.before t (o.basis dir).stop →
+          splineVal s (op.basis dir).kn ((o.basis dir).order - 1) ((o.basis dir).numFunctions + m)
+              (fibre op dir a i) t
+            = wsum s (o.basis dir).kn ((o.basis dir).order - 1) (o.basis dir).nAll
+                (o.basis dir).numFunctions (fibre o dir a i) 0 t) ∧
+        (s.after (o.basis dir).stop t →
+          splineVal s (op.basis dir).kn ((o.basis dir).order - 1) ((o.basis dir).numFunctions + m)
+              (fibre op dir a i) t
+            = wsum s (o.basis dir).kn ((o.basis dir).order - 1) (o.basis dir).nAll
+                (o.basis dir).numFunctions (fibre o dir a i) 0
+                (t - ((o.basis dir).stop - (o.basis dir).start))) :=
+  split_periodic_single_all o dir hdir hax hv k hk hshape tol x0 hx hMult
 
 end Splipy
